@@ -23,6 +23,8 @@ import Bee2V.C05.ModelPpDiv
 import Bee2V.C05.ModelGf2Ops
 import Bee2V.C05.ModelPpModOps
 import Bee2V.C05.ModelGcdW
+import Bee2V.C05.ModelEtcW
+import Bee2V.C05.ModelPpW
 namespace Bee2V.C05.Drv
 open Bee2V.Proto Bee2V.C05 Bee2V.C05.Spec
 
@@ -602,8 +604,13 @@ def modelW (W : Nat) (f : String) (args : List String) : Option String :=
   | "zzSqrt", [a] => do
     let (n, a) ← pw W a
     let r := zzSqrtV W n a
-    some (join [hw W ((n + 1) / 2) r.1, b01 r.2])
-  | "zzJacobi", [a, b] => do let (_, a) ← pw W a; let (_, b) ← pw W b; some (toString (zzJacobiV a b))
+    let rw := zzSqrtW W (toWords W n a)
+    if val W rw.1 != r.1 || rw.2 != r.2 || rw.1.length != (n + 1) / 2 then some "model-levels-differ" else
+    some (join [hl W rw.1, b01 rw.2])
+  | "zzJacobi", [a, b] => do
+    let a ← wl W a; let b ← wl W b
+    let r := zzJacobiW W a b
+    if r != zzJacobiV (val W a) (val W b) then some "model-levels-differ" else some (toString r)
   | "zzPowerModW", [a, e, m] => do let a ← nat a; let e ← nat e; let m ← nat m; some (toString (zzPowerModW W a e m))
   | "zzPowerMod", [a, e, m] => do
     let (n, a) ← pw W a; let (k, e) ← pw W e; let (_, m) ← pw W m
@@ -677,10 +684,12 @@ def modelW (W : Nat) (f : String) (args : List String) : Option String :=
     let (n, a) ← pw W a; let (m, b) ← pw W b
     let (k, d) ← pw W d; let (m1, da) ← pw W da; let (n1, db) ← pw W db
     let r := zzExGCDV a b
-    some (b01 (k == min n m && m1 == m && n1 == n && d == r.1 && da == r.2.1 && db == r.2.2))
+    let rw := zzExGCDW W (toWords W n a) (toWords W m b)
+    if val W rw.1 != r.1 || val W rw.2.1 != r.2.1 || val W rw.2.2 != r.2.2 then some "model-levels-differ" else
+    some (b01 (k == rw.1.length && m1 == rw.2.1.length && n1 == rw.2.2.length && d == r.1 && da == r.2.1 && db == r.2.2))
   | "zzInvMod", [_, a, m] => do
     let a ← wl W a; let m ← wl W m
-    let r := zzDivModW W (toWords W m.length 1) a m
+    let r := zzInvModW W a m
     if val W r != zzDivModV 1 (val W a) (val W m) then some "model-levels-differ" else some (hl W r)
   | "zzDivMod", [_, d, a, m] => do
     let d ← wl W d; let a ← wl W a; let m ← wl W m
@@ -780,15 +789,25 @@ def modelW (W : Nat) (f : String) (args : List String) : Option String :=
     let r := if op == "sqr" then gf2Sqr W m k l l1 a else gf2Mul W m k l l1 a b
     some (join [toString n, toString no, hl W r, ho no (val W r)])
   -- ModelPp (binary algorithms over GF(2)[x], value level)
-  | "ppGCD", [a, b] => do let (n, a) ← pw W a; let (m, b) ← pw W b; some (hw W (min n m) (ppGCDV a b))
+  | "ppGCD", [a, b] => do
+    let a ← wl W a; let b ← wl W b
+    let d := ppGCDW W a b
+    if val W d != ppGCDV (val W a) (val W b) then some "model-levels-differ" else some (hl W d)
   | "ppExGCD?", [a, b, d, da, db] => do
     let (n, a) ← pw W a; let (m, b) ← pw W b
     let (k, d) ← pw W d; let (m1, da) ← pw W da; let (n1, db) ← pw W db
     let r := ppExGCDV a b
-    some (b01 (k == min n m && m1 == m && n1 == n && d == r.1 && da == r.2.1 && db == r.2.2))
-  | "ppInvMod", [_, a, m] => do let (n, a) ← pw W a; let (_, m) ← pw W m; some (hw W n (ppInvModV a m))
+    let rw := ppExGCDW W (toWords W n a) (toWords W m b)
+    if val W rw.1 != r.1 || val W rw.2.1 != r.2.1 || val W rw.2.2 != r.2.2 then some "model-levels-differ" else
+    some (b01 (k == rw.1.length && m1 == rw.2.1.length && n1 == rw.2.2.length && d == r.1 && da == r.2.1 && db == r.2.2))
+  | "ppInvMod", [_, a, m] => do
+    let a ← wl W a; let m ← wl W m
+    let r := ppInvModW W a m
+    if val W r != ppInvModV (val W a) (val W m) then some "model-levels-differ" else some (hl W r)
   | "ppDivMod", [_, d, a, m] => do
-    let (n, d) ← pw W d; let (_, a) ← pw W a; let (_, m) ← pw W m; some (hw W n (ppDivModV d a m))
+    let d ← wl W d; let a ← wl W a; let m ← wl W m
+    let r := ppDivModW W d a m
+    if val W r != ppDivModV (val W d) (val W a) (val W m) then some "model-levels-differ" else some (hl W r)
   -- ModelBits
   | "wwIsW", [a, x] => do let a ← wl W a; let x ← nat x; some (join [b01 (wwIsW_safe a x), b01 (wwIsW_fast a x)])
   | "wwIsRepW", [a, x] => do let a ← wl W a; let x ← nat x; some (join [b01 (wwIsRepW_safe a x), b01 (wwIsRepW_fast a x)])
